@@ -430,8 +430,10 @@ def _typicality_stub(X, uncovered_samples_mapping, k, eps=1e-7):
     c = core.ctx()
     n = X.shape[0]
     out = F.full(n, -np.inf)
-    for i in arrays.cidx(arrays.asnd(uncovered_samples_mapping)):
-        t = core.fresh_float(c.fresh_name(f"typi{i}_"))
+    members = [int(i) for i in arrays.cidx(arrays.asnd(uncovered_samples_mapping))]
+    tag = "_".join(map(str, members))
+    for i in members:
+        t = core.fresh_float(f"typi[{tag}]_{i}")   # a function of (cluster membership, sample): same call => same value
         c.add(t.r > 0)
         out[int(i)] = t
     return out
